@@ -34,6 +34,7 @@ FUNCS = [
     ("_compat", "normalise_bytes", 2),
     ("_compat", "remove_whitespace", 3),
     ("curves", "Curve.__repr__", 1),
+    ("der", "oid_to_text", 1),
     ("ecdsa", "Signature.__init__", 1),
     ("ecdsa", "Public_key.__eq__", 1),
     ("ecdsa", "Public_key.__ne__", 1),
